@@ -325,7 +325,8 @@ RETCODE adfCreateHdHeader ( struct AdfDevice * const               dev,
     }
 
     /* FSHD */
-
+    memset ( &fshd, 0, sizeof(struct bFSHDblock) );
+    memset ( &lseg, 0, sizeof(struct bLSEGblock) );
     memcpy ( fshd.dosType, "DOS", 3 );
     fshd.dosType[3] = (char) partList[0]->volType;
     fshd.next = -1;
